@@ -41,8 +41,9 @@ func genPlainC(r *sim.Rand, tier, prop string) *sim.Case {
 	c.Cfg["commit_queue_cap"] = r.Pick64(0, 0, 2)
 	c.Cfg["wm_window"] = r.Pick64(0, 0, 4)
 	c.Cfg["pct_depth"] = r.Pick64(0, 0, 1, 2, 3)
-	c.Cfg["pct_horizon"] = r.Pick64(100, 300)
+	c.Cfg["pct_horizon"] = r.Pick64(100, 300, 600, 1200)
 	c.Cfg["pause_odds"] = r.Pick64(0, 4, 8)
+	c.Cfg["pause_budget"] = r.Pick64(0, 1, 1, 2, 3)
 	ntasks := r.Pick(2, 3, 4)
 	c.Cfg["tasks"] = int64(ntasks)
 	for t := 0; t < ntasks; t++ {
